@@ -77,6 +77,13 @@ func gen(tier string) []proto.Item {
 									s3.FiltersOff = true
 									s3.Hops = map[int]proto.HopSpec{pos.ttl: {Form: form, From: resp.addr, AtTarget: true, Perturb: &simnet.Perturb{Field: f, Op: op}, Tag: "wrong-port"}}
 									items = append(items, proto.Item{Scn: s3, Class: fmt.Sprintf("%s/%s/%s/%s/from-target-address-wrong-%s/alone/filters-off", v, rtag, pos.name, form, f)})
+									if op == "+1" && pos.ttl == r.first {
+										// ... on a capture handle that does not hand the run its own outgoing probes back (nothing is parsed
+										// between the rejected segment and the next router's time-exceeded)
+										s4 := s3
+										s4.NoOwnLoop = true
+										items = append(items, proto.Item{Scn: s4, Class: fmt.Sprintf("%s/%s/%s/%s/from-target-address-wrong-%s/alone/filters-off/own-probes-not-captured", v, rtag, pos.name, form, f)})
+									}
 								}
 							}
 						}
